@@ -171,27 +171,27 @@ type genCfg struct {
 }
 
 type startEvent struct {
-	E              string     `json:"e"`
-	Run            string     `json:"run"`
-	K              int        `json:"k"`
-	File           string     `json:"file,omitempty"`
-	Parsed         bool       `json:"parsed"`
-	NEntries       int        `json:"nentries"`
-	BadKeys        []string   `json:"badkeys"`
-	UnknownFeeders []string   `json:"unknownfeeders"`
-	MapOK          bool       `json:"mapok"`
-	DistinctIDs    int        `json:"distinctids"`
-	FeederFailed   []string   `json:"feederfailed"`
-	FeederPanicked []string   `json:"feederpanicked"`
-	FeederIDs      []string   `json:"feederids"`
-	MapIDs         []string   `json:"mapids"`
-	LogIDs         []string   `json:"logids"`
-	Main           string     `json:"main"`
+	E              string   `json:"e"`
+	Run            string   `json:"run"`
+	K              int      `json:"k"`
+	File           string   `json:"file,omitempty"`
+	Parsed         bool     `json:"parsed"`
+	NEntries       int      `json:"nentries"`
+	BadKeys        []string `json:"badkeys"`
+	UnknownFeeders []string `json:"unknownfeeders"`
+	MapOK          bool     `json:"mapok"`
+	DistinctIDs    int      `json:"distinctids"`
+	FeederFailed   []string `json:"feederfailed"`
+	FeederPanicked []string `json:"feederpanicked"`
+	FeederIDs      []string `json:"feederids"`
+	MapIDs         []string `json:"mapids"`
+	LogIDs         []string `json:"logids"`
+	Main           string   `json:"main"`
 	// Unpolled: logs with a feeder whose URL nobody asked for while Main ran (per environment of the child: default, GOMAXPROCS=1, GOMAXPROCS=2)
-	Unpolled []string `json:"unpolled"`
-	Entries        []cfgEntry `json:"entries,omitempty"`
-	Outcome        string     `json:"outcome,omitempty"`
-	Detail         string     `json:"detail,omitempty"`
+	Unpolled []string   `json:"unpolled"`
+	Entries  []cfgEntry `json:"entries,omitempty"`
+	Outcome  string     `json:"outcome,omitempty"`
+	Detail   string     `json:"detail,omitempty"`
 }
 
 type idEvent struct {
